@@ -370,6 +370,7 @@ fn grid(tier_thorough: bool) -> Vec<ArchiveSpec> {
                                     seed: 1000 + i as u32 + 17 * ci as u32,
                                     method,
                                     enc,
+                                    locale: [0u16, 0x409, 0, 0x407][i % 4],
                                 })
                                 .collect();
                             v.push(ArchiveSpec {
@@ -405,6 +406,7 @@ fn grid(tier_thorough: bool) -> Vec<ArchiveSpec> {
                             seed: 3,
                             method: m,
                             enc: Enc::None,
+                            locale: 0,
                         })
                 })
                 .collect();
@@ -437,6 +439,7 @@ fn grid(tier_thorough: bool) -> Vec<ArchiveSpec> {
                                 seed: i,
                                 method: [M_ZLIB, M_NONE, M_BZIP2, M_ZLIB, M_LZMA][i as usize],
                                 enc: [Enc::None, Enc::Key, Enc::None, Enc::FixKey, Enc::None][i as usize],
+                                locale: 0,
                             })
                             .collect();
                         v.push(ArchiveSpec {
